@@ -91,6 +91,9 @@ def replay(data, focus):
 
 def one_batch(ctx0, focus, rng, b, bseed, cases, descr):
     ctx = _TagFail(ctx0, bseed)
+    import json, os
+    with open(os.path.join(ctx0.work, 'last_input.json'), 'w') as f_:      # names the batch being parsed, should the process die in it
+        json.dump({'kind': 'process_crashed', 'batch_seed': bseed, 'focus': focus}, f_)
     if True:
         kind = rng.random()
         if kind < 0.35:
@@ -123,7 +126,8 @@ def one_batch(ctx0, focus, rng, b, bseed, cases, descr):
         use_beta = rng.random() < 0.3
         theta_odd = rng.choice([15, 31, 63])
         max_length = rng.choice([250, 250, 3])
-        max_step = rng.choice([10000000, 10000000, rng.randint(1, 30)])
+        max_step = rng.choice([300000, 300000, rng.randint(1, 30)])      # 300 000: far more than any generated sentence needs, small enough that a search that
+        # does not converge ends within seconds
         if nbest > 1 and getattr(binary, 'wide', False):
             # hundreds of results for one pair: n-best search keeps every derivation, so the budget is kept small (the chart of a five-token
             # sentence would not fit into memory otherwise)
